@@ -195,7 +195,7 @@ or `forward` to one of the targets the real `Table.Lookup` names *for the host a
 value, so a wrong host choice selects a different answer) — and for plain method names the parsed path is
 the method itself.  `spec`: the sentences of the property on the recorded observations — no route ⇒
 `NotFound` and no backend handler ran; a routed call reached exactly one backend of the matching route,
-which saw the caller's method, custom metadata and messages unmodified and in order; the caller saw the
+which saw the caller's method, custom metadata and messages (as protobuf field sequences) unmodified and in order; the caller saw the
 backend's messages, trailers, status code and message, and its headers whenever it sent a message;
 consecutive calls to a backend that stayed in the table arrive on one connection. -/
 
@@ -290,12 +290,11 @@ def callStep (t : CallTrack) (st o : Json) : CallTrack :=
           let inSet := urls.contains idx && nhits == 1
           let bsaw : Spec.BackendSaw := { method := getStrD b "method", md := parseSMD b "md", msgs := strsOf b "msgs" }
           let drained := getBoolD b "drained"
-          let sentNorm := strsOf o "sent_norm"
-          let replyNorm := strsOf o "reply_norm"
           let methodOK := bsaw.method == method
           let mdOK := Spec.mdCarried sentMD bsaw.md
-          let msgsFwd := !drained || bsaw.msgs == sentMsgs
-          let msgsBack := saw.msgs == did.msgs
+          -- messages are compared as protobuf field sequences (number, wire type, value) in order
+          let msgsFwd := !drained || Spec.Wire.sameMsgs bsaw.msgs sentMsgs
+          let msgsBack := Spec.Wire.sameMsgs saw.msgs did.msgs
           let statusOK := saw.code == did.code && saw.message == did.message
           let trailerOK := Spec.mdCarried did.trailer saw.trailer
           let headerOK := did.msgs.isEmpty || Spec.mdCarried did.header saw.header
@@ -303,9 +302,6 @@ def callStep (t : CallTrack) (st o : Json) : CallTrack :=
             | some c => c == conn
             | none => true
           let spec := inSet && methodOK && mdOK && msgsFwd && msgsBack && statusOK && trailerOK && headerOK && reuseOK
-          -- finding F2: the only difference is that top-level field tags were re-encoded minimally
-          let f2fwd := !msgsFwd && bsaw.msgs == sentNorm
-          let f2back := !msgsBack && saw.msgs == replyNorm
           let tag :=
             if !inSet then "wrong-backend"
             else if !methodOK then "method-altered"
@@ -314,8 +310,7 @@ def callStep (t : CallTrack) (st o : Json) : CallTrack :=
             else if !statusOK then "status-altered"
             else if !trailerOK then "trailer-lost-or-altered"
             else if !headerOK then "header-lost-or-altered"
-            else if (!msgsFwd && !f2fwd) || (!msgsBack && !f2back) then "message-altered"
-            else "nonminimal-tag-reencoded"
+            else "message-altered"
           let t := { t with lastConn := (idx, conn) :: t.lastConn.filter (·.1 != idx), forwards := t.forwards + 1,
                             reused := t.reused + (if (t.lastConn.lookup idx).isSome then 1 else 0) }
           t.note "forward" (inSet && ppOK) spec tag
